@@ -1,6 +1,7 @@
 import CoapVerif.Model.Limiter
 import CoapVerif.Lemmas.Limiter
 import CoapVerif.Lemmas.LimiterOrder
+import CoapVerif.Generated.LimiterWiring
 /-!
 # C16 — parallel-request limits are never exceeded and never leak
 
@@ -18,6 +19,45 @@ of all goroutines, both outcomes of every two-way `select` – for any number of
 -/
 namespace CoapVerif.Props.C16
 open CoapVerif.Model.Limiter CoapVerif.Lemmas.Limiter
+
+/-! ### Wiring: every request path of a connection is the limited one
+
+The theorems below are about the limiter object.  The property is about the **connection**, so the tie also covers how
+the connection constructors (`udp/client`, also used by DTLS, and `tcp/client`: `NewConnWithOpts`) hand out the functions
+through which client requests leave: the extractor lists them from the AST on every run (Generated/LimiterWiring.lean) and
+the obligation is decided over that list. -/
+
+/-- A client package is wired through the limiter when
+* the limiter wraps exactly the raw `cc.do` and `cc.doObserve`;
+* the observation handler (whose `do` sends the deregistration GET of `Observation.Cancel`) is given `limiter.Do`;
+* `client.New` receives the limiter (`Do`, `DoObserve`, `Get`, `Post`, `Put`, `Delete`, `Observe` of the connection are
+  promoted from it), nothing on `Conn` shadows `Do` / `DoObserve`, and there is no second constructor of `Conn`;
+* the raw functions are mentioned nowhere else in the package, except `doInternal` inside `do` (the single exchange,
+  block-wise continuations included, that runs *inside* the limiter's slot). -/
+def wiredThroughLimiter (w : Generated.LimiterWiring.Wiring) : Bool :=
+  w.limiterWraps == ["cc.do", "cc.doObserve"] && w.handlerDo == .limiter && w.clientLimiter == .limiter &&
+  w.otherRefs.all (· == ("do", "doInternal")) && w.shadowing.isEmpty && w.connLiterals == ["NewConnWithOpts"]
+
+/-- Every request-issuing path that a connection hands to a component or exposes to its user is the limited one
+    (for the datagram client, which DTLS shares, and the stream client). -/
+theorem every_request_path_is_limited :
+    Generated.LimiterWiring.wirings.map (·.pkg) = ["udp/client", "tcp/client"] ∧
+    Generated.LimiterWiring.wirings.all wiredThroughLimiter = true ∧
+    Generated.LimiterWiring.clientEmbedsLimiter = true ∧ Generated.LimiterWiring.clientOwnDo = [] := by decide
+
+/-- the obligation is not vacuous: handing the raw function to the observation handler (seeded change C16-D) is rejected -/
+def seededWiring : Generated.LimiterWiring.Wiring where
+  pkg := "tcp/client"
+  limiterWraps := ["cc.do", "cc.doObserve"]
+  handlerDo := .raw
+  handlerDoSrc := "cc.do"
+  clientLimiter := .limiter
+  clientLimiterSrc := "limitParallelRequests"
+  otherRefs := [("do", "doInternal")]
+  shadowing := []
+  connLiterals := ["NewConnWithOpts"]
+
+example : wiredThroughLimiter seededWiring = false := by decide
 
 /-- Per path, the requests inside the wrapped function never exceed the endpoint limit. -/
 theorem endpoint_limit_inv (limit epLimit : Int) (evs : List Event) (k : Key) :
@@ -420,6 +460,7 @@ end CoapVerif.Props.C16
 
 section Audit
 open CoapVerif.Props.C16
+#print axioms every_request_path_is_limited
 #print axioms endpoint_limit_inv
 #print axioms total_limit_inv
 #print axioms queue_is_arrival_order
